@@ -274,8 +274,8 @@ fn many_functions_probe<T: Sc>(rep: &mut Report) {
 /// and parallel.
 fn many_columns_probe<T: Sc>(rep: &mut Report) {
     // (300 / 515: more than one block of 256 right hand sides, not a multiple of it)
-    for (s, weighted, par) in [(70usize, false, false), (131, true, false), (70, true, true), (300, true, true), (515, false, true), (257, false, false)] {
-        let n = 30usize;
+    // (the last three: few columns, many samples - 1025 / 4100 / 16400 rows)
+    for (s, weighted, par, n) in [(70usize, false, false, 30usize), (131, true, false, 30), (70, true, true, 30), (300, true, true, 30), (515, false, true, 30), (257, false, false, 30), (3, true, true, 1025), (2, false, true, 4100), (2, true, false, 16400)] {
         let h = 2usize;
         let m = 2 * h + 1;
         let model0 = FourierModel::<T>::new(n, h, 1.0);
@@ -1557,7 +1557,7 @@ fn many_parameters_probe<T: Sc>(rep: &mut Report) {
         return;
     }
     let pools: Vec<rayon::ThreadPool> = [2usize, 3].iter().map(|&t| rayon::ThreadPoolBuilder::new().num_threads(t).build().unwrap()).collect();
-    for (p, n, weighted, s) in [(8usize, 12usize, false, 1usize), (8, 12, true, 2), (10, 15, true, 1), (8, 40, true, 1)] {
+    for (p, n, weighted, s) in [(8usize, 12usize, false, 1usize), (8, 12, true, 2), (10, 15, true, 1), (8, 40, true, 1), (40, 160, true, 1), (70, 300, false, 2)] {
         let a0: Vec<f64> = (0..p).map(|k| 0.5 + 0.1 * k as f64).collect();
         let model0 = RationalModel::<T>::new(n, &a0);
         let w: Option<Vec<T>> = if weighted { Some((0..n).map(|i| T::of64(0.5 + ((i * 3) % 5) as f64 / 4.0)).collect()) } else { None };
